@@ -56,6 +56,8 @@ impl PartialEq for Outcome {
 impl Eq for Outcome {}
 
 pub struct RunOut {
+    /// receipts whose start_block differs from what was stored for that very request
+    pub receipt_mismatch: Option<String>,
     pub outcome: Option<Outcome>,
     pub res: sched::RunResult,
     pub probe_failed: Option<String>,
@@ -94,13 +96,13 @@ pub fn execute_with(sc: &Scenario, schedule: &[u8], slot: usize, serial: Option<
     let mut tower = match Tower::boot(node.clone(), &dir, sc.cfg) {
         Ok(t) => t,
         Err(e) => {
-            return RunOut { outcome: None, res: Default::default(), probe_failed: None, setup_failed: Some(format!("boot: {e:?}")) };
+            return RunOut { receipt_mismatch: None, outcome: None, res: Default::default(), probe_failed: None, setup_failed: Some(format!("boot: {e:?}")) };
         }
     };
     for op in &sc.setup {
         if let Err(e) = setup_op(&node, &mut tower, op) {
             let _ = std::fs::remove_dir_all(&dir);
-            return RunOut { outcome: None, res: Default::default(), probe_failed: None, setup_failed: Some(format!("setup {op:?}: {e}")) };
+            return RunOut { receipt_mismatch: None, outcome: None, res: Default::default(), probe_failed: None, setup_failed: Some(format!("setup {op:?}: {e}")) };
         }
     }
     let log_from = node.log_len();
@@ -148,6 +150,7 @@ pub fn execute_with(sc: &Scenario, schedule: &[u8], slot: usize, serial: Option<
     };
     let mut probe_failed = None;
     let mut outcome = None;
+    let mut receipt_mismatch = None;
     if res.deadlock.is_none() && !res.hung {
         // liveness probe: the tower must still answer a request and process a block
         let probe = std::panic::catch_unwind(std::panic::AssertUnwindSafe(|| {
@@ -168,6 +171,24 @@ pub fn execute_with(sc: &Scenario, schedule: &[u8], slot: usize, serial: Option<
         }
         if res.panics.is_empty() && probe_failed.is_none() {
             let snap = tower.snapshot();
+            // C08 under concurrency: the start block a receipt commits to is the one stored for that request
+            for (i, op) in sc.threads.iter().enumerate() {
+                if let Op::Add { u, chan, dvar, blob, delay, sig } = op {
+                    let reply = replies.lock().unwrap()[i].clone().unwrap_or_default();
+                    if let Some(start) = reply.strip_prefix("accepted(start=").and_then(|r| r.split(',').next()).and_then(|x| x.parse::<u32>().ok()) {
+                        let dispute = txs::dispute(SALT, *chan as u32, *dvar as u32);
+                        let locator = crate::model::Locator::new(dispute.compute_txid());
+                        let appt = teos_common::appointment::Appointment::new(locator.real(), crate::world::blob_of(*blob, &dispute), *delay);
+                        let sigs = crate::world::make_sig(*sig, crate::world::ReqKind::Add, &appt.to_vec(), *u, &locator);
+                        let uuid = crate::model::uuid_of(&locator, &crate::world::user_pk(*u));
+                        if let Some(row) = snap.appointments.get(&uuid) {
+                            if row.user_signature == sigs && row.start_block != start {
+                                receipt_mismatch = Some(format!("the receipt of {} commits to start_block {start} but the tower stored {} for that request", opname(op), row.start_block));
+                            }
+                        }
+                    }
+                }
+            }
             let (users, appts, trackers) = snapshot_digest(&snap);
             outcome = Some(Outcome {
                 // replies are momentary readings (numbers, heights, which error came first); what counts is what they led to
@@ -182,7 +203,7 @@ pub fn execute_with(sc: &Scenario, schedule: &[u8], slot: usize, serial: Option<
     // a deadlocked / aborted tower may hold poisoned locks: drop it on a best-effort basis
     let _ = std::panic::catch_unwind(std::panic::AssertUnwindSafe(|| drop(tower)));
     let _ = std::fs::remove_dir_all(&dir);
-    RunOut { outcome, res, probe_failed, setup_failed: None }
+    RunOut { receipt_mismatch, outcome, res, probe_failed, setup_failed: None }
 }
 
 fn diff_components(a: &Outcome, b: &Outcome) -> Vec<&'static str> {
@@ -237,6 +258,14 @@ pub fn judge(sc: &Scenario, out: &RunOut, serial: &[Outcome], want_c10: bool) ->
         });
     }
     if !v.is_empty() || !want_c10 {
+        return v;
+    }
+    if let Some(m) = &out.receipt_mismatch {
+        v.push(Violation {
+            property: "C08".into(),
+            signature: format!("receipt-start-block-not-the-stored-one:{pair}"),
+            message: format!("scenario `{}`: {m}", sc.name),
+        });
         return v;
     }
     if let Some(o) = &out.outcome {
@@ -533,14 +562,55 @@ pub fn replay(path: &str) -> i32 {
     1
 }
 
+/// Re-runs the saved (scenario, schedule) pairs of earlier findings.
+pub fn replay_regressions(want_c10: bool) -> (Stats, u64) {
+    let findings = crate::known::load();
+    let mut st = Stats::default();
+    let mut n = 0;
+    if let Ok(rd) = std::fs::read_dir("/verif/regress/sched") {
+        let mut files: Vec<_> = rd.filter_map(|e| e.ok()).map(|e| e.path()).collect();
+        files.sort();
+        for f in files {
+            let body: serde_json::Value = match std::fs::read_to_string(&f).ok().and_then(|s| serde_json::from_str(&s).ok()) {
+                Some(b) => b,
+                None => continue,
+            };
+            let case: Case = match serde_json::from_value(body["case"].clone()) {
+                Ok(c) => c,
+                Err(_) => continue,
+            };
+            let serial = match serial_outcomes(&case.scenario, 0) {
+                Ok(s) => s,
+                Err(_) => continue,
+            };
+            let out = execute(&case.scenario, &case.schedule, 0);
+            n += 1;
+            let rep = CaseReport { violations: judge(&case.scenario, &out, &serial, want_c10), ..Default::default() };
+            let (unknown, kn) = runner::triage(&findings, &rep);
+            st.absorb(&rep);
+            for k in kn {
+                *st.known_hits.entry((k.property, k.signature)).or_insert(0) += 1;
+            }
+            if let Some(v) = unknown.first() {
+                st.failures.push((v.clone(), body["case"].clone()));
+            }
+        }
+    }
+    (st, n)
+}
+
 pub fn run(ctx: &Ctx) -> i32 {
     let started = Instant::now();
     sched::install();
     if let Some(p) = &ctx.replay {
         return replay(p);
     }
-    let ex = explore(ctx, true);
+    let mut ex = explore(ctx, true);
+    // replay tier: the schedules of earlier findings
+    let (rs, rn) = replay_regressions(true);
+    ex.stats.merge(rs);
     let mut ev = Evidence::default();
+    ev.extra.insert("regression_schedules_replayed".into(), json!(rn));
     ev.level = "exploration".into();
     ev.rule = format!(
         "{} scenarios (7 chain situations x 7 API operations, acceptance-time triggers, duplicate submissions, last-slot races, 4 triples); per scenario all schedules \
